@@ -75,7 +75,8 @@ Legal(s, lb) ==
              /\ (lb.op = "erase1" => lb.pos < sz)
              /\ (lb.op = "eraseRange" => lb.pos <= lb.n /\ lb.n <= sz)
              /\ (lb.op \in {"popBack", "popBackVal", "front", "back"} => sz > 0)
-             /\ (lb.op = "index" => lb.n < sz)
+             /\ (lb.op \in {"index", "setIndex", "setData", "setIter", "setRIter"} => lb.n < sz)
+             /\ (lb.op \in {"setFront", "setBack"} => sz > 0)
   /\ lb.op \in AllOpsBig
 
 Parts(lb) == {lb.c} \cup ({lb.d} \ {0})
@@ -189,12 +190,12 @@ StablePrefix(s, lb) ==
   LET sz == Len(s[lb.c].vals) IN
   CASE lb.op \in {"insert1", "insert1rv", "emplace", "emplaceF", "insertN", "insertRange", "insertIlist", "erase1", "eraseRange"} -> lb.pos
     [] lb.op \in {"pushBack", "pushBackRv", "emplaceBack", "emplaceBackF", "appendN", "appendNVal", "appendRange", "appendIlist",
-                  "reserve", "reserveBig", "at", "index", "front", "back", "iterate", "eq", "ne", "lt", "le", "gt", "ge"} -> sz
+                  "reserve", "reserveBig", "at", "index", "front", "back", "iterate", "eq", "ne", "lt", "le", "gt", "ge", "maxSize"} \cup SetOps -> sz
     [] lb.op \in {"resize", "resizeVal"} -> Min(sz, lb.n)
     [] lb.op \in {"popBack", "popBackVal"} -> sz - 1
     [] OTHER -> 0
 
-Observers == {"at", "index", "front", "back", "iterate", "eq", "ne", "lt", "le", "gt", "ge"}
+Observers == {"at", "index", "front", "back", "iterate", "eq", "ne", "lt", "le", "gt", "ge", "maxSize"}
 AppendOps == {"pushBack", "pushBackRv", "emplaceBack", "emplaceBackF"}
 
 AddViol(v, ps, ln, why) ==
@@ -227,6 +228,7 @@ TOp ==
      LET c    == lb.c
          exp  == Step(st, lb)
          faulted == lb.k > 0 /\ r.k = "exc" /\ r.s \in {"injected", "bad_alloc"}
+         thrownByMove == faulted /\ "tm" \in DOMAIN ev /\ ev.tm
          exs  == {x \in Slots : obs[x].ex}
          \* ---- values (C01 / C08 / C09 / C10 / C13 / C14)
          ShapeOK == \A x \in exs : /\ obs[x].size = Len(obs[x].vals)
@@ -265,7 +267,8 @@ TOp ==
          c02Fail ==
            IF Cat = "TC" THEN ""
            ELSE IF L2.bad # <<>> THEN L2.bad[1][1]
-           ELSE IF \E x \in exs : \E i \in 1..obs[x].size : obs[x].mv[i] # 0 THEN "moved-from element visible"
+           \* (a move operation that throws inevitably leaves moved-from elements behind: waived on that call only)
+           ELSE IF ~thrownByMove /\ \E x \in exs : \E i \in 1..obs[x].size : obs[x].mv[i] # 0 THEN "moved-from element visible"
            ELSE IF Cardinality(visIds) # nVis THEN "same object visible twice (bitwise duplicate)"
            ELSE IF DOMAIN L2.objs # visIds
                 THEN IF visIds \ DOMAIN L2.objs # {} THEN "visible element is not alive"
@@ -321,7 +324,7 @@ TOp ==
          touchedOrRead(ids) == \E i \in 1..Len(ev.prims) : ev.prims[i][2] \in ids \/ ev.prims[i][4] \in ids
          moveFromHeap == lb.op \in {"ctorMove", "assignMove"} /\ lb.c # lb.d /\ Flav[lb.d] # "fixed" /\ ~st[lb.d].inl
                          /\ last[lb.d].ex /\ last[lb.d].buf # 0
-         swapHeaps == lb.op = "swap" /\ lb.c # lb.d /\ Flav[c] # "fixed" /\ ~st[c].inl /\ ~st[lb.d].inl
+         swapHeaps == lb.op \in {"swap", "freeSwap"} /\ lb.c # lb.d /\ Flav[c] # "fixed" /\ ~st[c].inl /\ ~st[lb.d].inl
          c07Fail ==
            IF \E x \in exs : ~(obs[x].size <= obs[x].cap /\ obs[x].cap <= obs[x].maxsz) THEN "size <= capacity <= max_size violated"
            ELSE IF ~exempt /\ \E x \in exs : st[x].ex /\ obs[x].cap < st[x].cap THEN "capacity decreased"
